@@ -519,6 +519,11 @@ class DAGRunConcurrentManager(DAGRunManagerLike):
             if subgraph_error is not None:
                 logger.debug('An error has been found in the %s', dag)
 
+                if not self.__has_subgraph_error(dag):
+                    # The failure belongs to the selected case of a switch, which is not a node of the subgraph.
+                    # The node that cannot be started because of it carries the failure for the owner of the subgraph.
+                    self._node_storage.set_node_result(node_id, subgraph_error)
+
                 # The nodes that have already been started must not be cancelled here: they may be needed by
                 # the next OneOf subgraph or by other nodes, and a cancelled node would stay marked as processed
                 # without any result. All remaining tasks are stopped at the end of the run.
